@@ -832,6 +832,15 @@ var constructs = []construct{
 	{name: "unindent-run", prefix: "", unit: "", suffix: ""}, // special: nested if blocks
 }
 
+// recursive reports whether the parser handles the construct by recursion (stack depth grows with nesting).
+func (c construct) recursive() bool {
+	switch c.name {
+	case "call-chain", "slices", "not-chain", "lines", "elif-chain", "long-ident", "long-string", "unindent-run":
+		return false
+	}
+	return true
+}
+
 func (c construct) build(depth int) []byte {
 	if c.name == "unindent-run" {
 		// nested if blocks, depth levels of indentation, then one dedent to zero
@@ -892,6 +901,9 @@ func depthTable(tier string) []depthCase {
 			}
 			if c.name == "unindent-run" && d > 2000 {
 				d = 2000 // quadratic file size
+			}
+			if tier != "thorough" && d > 10000 && !c.recursive() {
+				d = 10000 // iterative constructs: the deep rungs are left to the thorough tier
 			}
 			dup := false
 			for _, o := range out {
